@@ -695,6 +695,38 @@ def r7(k: Kit) -> None:
     rep.floor('C20.R7', 'accept_handler call sites', n, 2)
 
 
+def dest_connect_errors(k: Kit, rule: str) -> None:
+    """A destination that cannot be connected fails that one open."""
+    from ..index import parent
+    rep = k.rep
+    fi = k.func(CONN + 'forward_connection')
+    sites = [c for c in ast.walk(fi.node) if is_call(c, 'create_connection')]
+    rep.floor(rule, 'destination connects', len(sites), 1)
+    for c in sites:
+        hs = set()
+        x = c
+        while x is not None and x is not fi.node:
+            x = parent(x)
+            if isinstance(x, ast.Try):
+                for h in x.handlers:
+                    conv = any(isinstance(r, ast.Raise) and r.exc is not None
+                               and 'ChannelOpenError' in unparse(r.exc)
+                               for r in ast.walk(h))
+                    if conv:
+                        hs |= {dotted(t) for t in (
+                            h.type.elts if isinstance(h.type, ast.Tuple)
+                            else [h.type])} if h.type is not None else {'*'}
+        rep.check('OSError' in hs and bool(hs & {
+            'OverflowError', 'ArithmeticError', 'Exception', '*'}), rule,
+            key(fi, 'connect errors become ChannelOpenError'),
+            'OSError and OverflowError of the connect are converted',
+            'the destination port of a direct-tcpip open is a 32-bit field '
+            'of the peer: for a port above 65535 the socket layer raises '
+            'OverflowError, which is not converted - the open task dies and '
+            'the whole SSH connection (every other forward on it) is '
+            'dropped instead of refusing that one channel', fi.loc(c))
+
+
 def r9(k: Kit) -> None:
     """Data that arrives with the open confirmation waits for the relay."""
     rep = k.rep
@@ -783,3 +815,7 @@ def run(idx, rep, tier):
     rep.floor('C20.R12', 'shared rows', len(_kept), 1)
     for o in rep.obligations[_before:]:
         o.rule = 'C20.R12'
+    rep.rule('C20.R13', 'forward_connection converts every error of the '
+             'destination connect - OSError and the OverflowError of an '
+             'out-of-range port - into ChannelOpenError for that channel')
+    dest_connect_errors(k, 'C20.R13')
